@@ -34,6 +34,7 @@ package home
 // destinations TLC emitted; direction B traces are decided by TLC itself).
 
 import (
+	"bufio"
 	"bytes"
 	"context"
 	"crypto/ecdsa"
@@ -397,7 +398,14 @@ func (w *zzG08World) teardown() {
 		globalContext.auth = nil
 	}
 
-	_ = stopDNSServer()
+	if isRunning() {
+		_ = stopDNSServer()
+	} else {
+		// A DNS server that was prepared but does not run still holds its
+		// databases (a real process exit releases them).
+		closeDNSServer()
+	}
+
 	if globalContext.dhcpServer != nil {
 		_ = globalContext.dhcpServer.Stop()
 		globalContext.dhcpServer = nil
@@ -692,18 +700,18 @@ func (w *zzG08World) makeCerts() {
 
 	// Something that is no PEM at all, inline and as files.
 	g := &zzG08Cert{
-		id: "garbage", chainPEM: []byte("this is not a certificate\n"), keyPEM: []byte("this is not a key\n"),
-		certPath: filepath.Join(w.certDir, "garbage.crt"), keyPath: filepath.Join(w.certDir, "garbage.key"),
+		id: "G", chainPEM: []byte("this is not a certificate\n"), keyPEM: []byte("this is not a key\n"),
+		certPath: filepath.Join(w.certDir, "G.crt"), keyPath: filepath.Join(w.certDir, "G.key"),
 	}
 	g.chainB64 = base64.StdEncoding.EncodeToString(g.chainPEM)
 	g.keyB64 = base64.StdEncoding.EncodeToString(g.keyPEM)
 	_ = os.WriteFile(g.certPath, g.chainPEM, 0o600)
 	_ = os.WriteFile(g.keyPath, g.keyPEM, 0o600)
-	w.certs["garbage"] = g
+	w.certs["G"] = g
 }
 
-// certID maps PEM data to the id of the leaf ("none" for empty data,
-// "garbage" for anything that does not parse, "?" for a foreign certificate).
+// certID maps PEM data to the id of the leaf ("none" for empty data, "G" for
+// anything that does not parse).
 func (w *zzG08World) certID(pemData []byte) (id string) {
 	if len(bytes.TrimSpace(pemData)) == 0 {
 		return "none"
@@ -711,12 +719,12 @@ func (w *zzG08World) certID(pemData []byte) (id string) {
 
 	blk, _ := pem.Decode(pemData)
 	if blk == nil {
-		return "garbage"
+		return "G"
 	}
 
 	c, err := x509.ParseCertificate(blk.Bytes)
 	if err != nil {
-		return "garbage"
+		return "G"
 	}
 
 	return strings.TrimPrefix(c.Subject.CommonName, "zz-")
@@ -733,7 +741,7 @@ func (w *zzG08World) keyID(pemData []byte) (id string) {
 	}
 
 	if _, _, err := parsePrivateKeyForID(pemData); err != nil {
-		return "garbage"
+		return "G"
 	}
 
 	return "?"
@@ -759,16 +767,1362 @@ func (w *zzG08World) pathID(p string) (id string) {
 	}
 
 	if base == zzG08NoSuch {
-		return "missing"
+		return "M"
 	}
 
 	return strings.TrimSuffix(strings.TrimSuffix(base, ".crt"), ".key")
 }
 
-// keep the imports used while the file grows
-var (
-	_ = rand.New
-	_ = tls.X509KeyPair
-	_ = bcrypt.MinCost
-	_ = json.Marshal
-)
+// ------------------------------------------------------------------ walker
+
+// zzG08Out is one admissible outcome of a label, as emitted by TLC.
+type zzG08Out struct {
+	Code int    `json:"code"`
+	DKey string `json:"dkey"` // canonical form of the destination state
+	DID  int    `json:"did"`
+	Web  string `json:"web,omitempty"`
+	DNS  string `json:"dns,omitempty"`
+}
+
+// zzG08Vec is one (state, label) vector with its admissible outcomes.
+type zzG08Vec struct {
+	ID     int              `json:"id"`
+	SID    int              `json:"sid"`
+	SKey   string           `json:"skey"`
+	Act    string           `json:"act"`
+	Shape  string           `json:"shape,omitempty"`
+	Args   map[string]any   `json:"args"`
+	Outs   []zzG08Out       `json:"outs"`
+	Fields map[string][]any `json:"fields,omitempty"`
+	Saved  bool             `json:"saved,omitempty"`
+	Want   bool             `json:"want"`
+}
+
+// zzG08Step is what one executed label produced.
+type zzG08Step struct {
+	Code   int            `json:"code"`
+	Web    string         `json:"web,omitempty"`
+	DNS    string         `json:"dns,omitempty"`
+	Fields map[string]any `json:"fields,omitempty"`
+	Body   string         `json:"body,omitempty"`
+	Panic  string         `json:"panic,omitempty"`
+}
+
+// zzG08Arena is what the walker needs from an arena.
+type zzG08Arena struct {
+	name    string
+	reset   func() (err error)                              // new deployment, booted, in the initial state
+	exec    func(act string, args map[string]any) zzG08Step // perform one label
+	observe func() (key string, obs map[string]any)         // project the real state
+	// settle lets asynchronous parts of the state (the HTTPS server picking
+	// up a certificate) arrive: it polls until the projection is one of
+	// want or the budget is used up.
+	settle func(want map[string]bool) (key string, obs map[string]any)
+	// extra is arena state that is part of a trace line but not of the
+	// projection (the disk fault of arena I).
+	extra func() (m map[string]any)
+	// quiesce waits for asynchronous effects without knowing what the
+	// specification admits (scripts recorded for TLC).
+	quiesce func(act string, st zzG08Step)
+}
+
+func zzG08Canon(v any) (s string) {
+	b, err := json.Marshal(v)
+	if err != nil {
+		panic(err)
+	}
+
+	return string(b)
+}
+
+func zzG08LoadVecs(t testing.TB) (vecs []*zzG08Vec, initID int, initKey string) {
+	initID = -1
+	zzReadNDJSON(t, "VERIF_IN", func(line []byte) {
+		hdr := struct {
+			Init    *int   `json:"init"`
+			InitKey string `json:"initkey"`
+		}{}
+		if json.Unmarshal(line, &hdr) == nil && hdr.Init != nil {
+			initID, initKey = *hdr.Init, hdr.InitKey
+
+			return
+		}
+
+		v := &zzG08Vec{}
+		if err := json.Unmarshal(line, v); err != nil {
+			t.Fatalf("bad vector line: %v", err)
+		}
+
+		vecs = append(vecs, v)
+	})
+
+	if initID < 0 {
+		t.Fatal("no header line in VERIF_IN")
+	}
+
+	return vecs, initID, initKey
+}
+
+// zzG08Match finds the admissible outcomes the observation agrees with.
+func zzG08Match(v *zzG08Vec, st zzG08Step, key string) (hit *zzG08Out) {
+	for i := range v.Outs {
+		o := &v.Outs[i]
+		if o.Code != st.Code || o.DKey != key {
+			continue
+		}
+
+		if v.Act == "check_config" && (o.Web != st.Web || o.DNS != st.DNS) {
+			continue
+		}
+
+		return o
+	}
+
+	return nil
+}
+
+// zzG08FieldsBad lists the reply fields whose observed value the
+// specification does not admit.
+func zzG08FieldsBad(v *zzG08Vec, st zzG08Step) (bad []string) {
+	if st.Code != http.StatusOK || len(v.Fields) == 0 || st.Fields == nil {
+		return nil
+	}
+
+	for name, adm := range v.Fields {
+		if name == "none" {
+			continue
+		}
+
+		got, ok := st.Fields[name]
+		if !ok {
+			bad = append(bad, name+" (absent)")
+
+			continue
+		}
+
+		found := false
+		for _, a := range adm {
+			if a == got {
+				found = true
+			}
+		}
+
+		if !found {
+			bad = append(bad, name)
+		}
+	}
+
+	if v.Act == "status" {
+		if got, _ := st.Fields["saved"].(bool); got != v.Saved {
+			bad = append(bad, "private_key_saved")
+		}
+	}
+
+	sort.Strings(bad)
+
+	return bad
+}
+
+// zzG08Walk covers the wanted vectors with tours on the real system.
+func zzG08Walk(t testing.TB, a *zzG08Arena, out *zzWriter, vecs []*zzG08Vec, initID int, initKey string, rng *rand.Rand) {
+	byState := map[int][]*zzG08Vec{}
+	keyOf := map[int]string{initID: initKey}
+	for _, v := range vecs {
+		byState[v.SID] = append(byState[v.SID], v)
+		keyOf[v.SID] = v.SKey
+		for _, o := range v.Outs {
+			keyOf[o.DID] = o.DKey
+		}
+	}
+
+	for _, l := range byState {
+		rng.Shuffle(len(l), func(i, j int) { l[i], l[j] = l[j], l[i] })
+	}
+
+	done := map[int]bool{}
+	left := 0
+	for _, v := range vecs {
+		if v.Want {
+			left++
+		}
+	}
+
+	stats := map[string]int{}
+	var path []int
+	cur := -1
+	resetArena := func() {
+		t0 := time.Now()
+		defer func() { stats["ms_reset"] += int(time.Since(t0).Milliseconds()) }()
+		if err := a.reset(); err != nil {
+			t.Fatalf("arena %s: reset: %v", a.name, err)
+		}
+
+		key, obs := a.observe()
+		if key != initKey {
+			out.put(map[string]any{"kind": "fatal", "arena": a.name, "what": "the initial projection is not the initial state of the specification",
+				"obs": obs, "want": initKey})
+			t.Fatalf("arena %s: initial state mismatch:\n got  %s\n want %s", a.name, key, initKey)
+		}
+
+		cur = initID
+		path = nil
+		stats["resets"]++
+	}
+
+	// next picks the vector to execute from the current state: an uncovered
+	// wanted one here, else the first step of a shortest path (over all
+	// admissible outcomes) to a state that has one.
+	unreachable := map[int]int{}
+	next := func() (v *zzG08Vec) {
+		for _, c := range byState[cur] {
+			if c.Want && !done[c.ID] {
+				return c
+			}
+		}
+
+		type node struct {
+			sid   int
+			first *zzG08Vec
+		}
+		seen := map[int]bool{cur: true}
+		queue := []node{{sid: cur}}
+		for len(queue) > 0 {
+			n := queue[0]
+			queue = queue[1:]
+			for _, c := range byState[n.sid] {
+				for _, o := range c.Outs {
+					if seen[o.DID] {
+						continue
+					}
+
+					seen[o.DID] = true
+					first := n.first
+					if first == nil {
+						first = c
+					}
+
+					if unreachable[o.DID] < 3 {
+						for _, d := range byState[o.DID] {
+							if d.Want && !done[d.ID] {
+								return first
+							}
+						}
+					}
+
+					queue = append(queue, node{sid: o.DID, first: first})
+				}
+			}
+		}
+
+		return nil
+	}
+
+	resetArena()
+	budget := 40 * len(vecs)
+	target := -1
+	for left > 0 && budget > 0 {
+		budget--
+		v := next()
+		if v == nil {
+			if cur != initID {
+				resetArena()
+
+				continue
+			}
+
+			break
+		}
+
+		if !(v.Want && !done[v.ID]) {
+			// A transit step towards an uncovered state.
+			stats["transit"]++
+			if target != v.ID {
+				target = v.ID
+			}
+		}
+
+		t0 := time.Now()
+		st := a.exec(v.Act, v.Args)
+		t1 := time.Now()
+		key, obs := a.observe()
+		t2 := time.Now()
+		hit := zzG08Match(v, st, key)
+		if hit == nil && a.settle != nil {
+			want := map[string]bool{}
+			for _, o := range v.Outs {
+				if o.Code == st.Code {
+					want[o.DKey] = true
+				}
+			}
+
+			key, obs = a.settle(want)
+			hit = zzG08Match(v, st, key)
+		}
+
+		stats["us_exec"] += int(t1.Sub(t0).Microseconds())
+		stats["us_observe"] += int(t2.Sub(t1).Microseconds())
+		stats["us_settle"] += int(time.Since(t2).Microseconds())
+		path = append(path, v.ID)
+		wasWanted := v.Want && !done[v.ID]
+		if wasWanted {
+			done[v.ID] = true
+			left--
+		}
+
+		stats["steps"]++
+		if hit == nil {
+			stats["bad"]++
+			out.put(map[string]any{"kind": "bad", "arena": a.name, "vec": v, "step": st, "obs": obs, "key": key,
+				"path": append([]int(nil), path...)})
+			if !wasWanted {
+				// The way to some state is barred: do not try for ever.
+				for _, o := range v.Outs {
+					unreachable[o.DID]++
+				}
+			}
+
+			if key == v.SKey && v.Act != "configure" && v.Act != "restart" {
+				// A wrong reply of a read-only call that left the state
+				// where it was: the behaviour goes on.
+				continue
+			}
+
+			resetArena()
+
+			continue
+		}
+
+		if fb := zzG08FieldsBad(v, st); len(fb) > 0 {
+			stats["bad_fields"]++
+			out.put(map[string]any{"kind": "badfields", "arena": a.name, "vec": v, "step": st, "fields": fb,
+				"path": append([]int(nil), path...)})
+		} else if stats["samples"] < 6 && (st.Code == 200 || st.Code == 500) && hit.DID != v.SID {
+			stats["samples"]++
+			out.put(map[string]any{"kind": "sample", "arena": a.name, "act": v.Act, "shape": v.Shape, "args": v.Args,
+				"code": st.Code, "dst": hit.DKey})
+		}
+
+		if hit.DID != v.SID {
+			stats["state_changes"]++
+		}
+
+		cur = hit.DID
+	}
+
+	var missed []int
+	for _, v := range vecs {
+		if v.Want && !done[v.ID] {
+			missed = append(missed, v.ID)
+		}
+	}
+
+	out.put(map[string]any{"kind": "summary", "arena": a.name, "stats": stats, "wanted_left": left,
+		"missed": missed, "vectors": len(vecs)})
+}
+
+// zzG08ScriptStep is one step of a script: a label with the projections the
+// orchestrator would accept after it (only used to let late parts arrive).
+type zzG08ScriptStep struct {
+	Act  string         `json:"act"`
+	Args map[string]any `json:"args"`
+	Want []string       `json:"want,omitempty"`
+}
+
+// zzG08RunScripts executes given label sequences, each from a fresh
+// deployment, and reports every step: this is how a disagreement is run
+// again in isolation (the orchestrator and TLC judge the result).
+func zzG08RunScripts(t testing.TB, a *zzG08Arena, out *zzWriter, path string) {
+	b, err := os.ReadFile(path)
+	if err != nil {
+		t.Fatalf("reading scripts: %v", err)
+	}
+
+	var scripts [][]zzG08ScriptStep
+	if err = json.Unmarshal(b, &scripts); err != nil {
+		t.Fatalf("parsing scripts: %v", err)
+	}
+
+	for si, sc := range scripts {
+		if err = a.reset(); err != nil {
+			t.Fatalf("reset: %v", err)
+		}
+
+		_, obs := a.observe()
+		rec := map[string]any{"kind": "script", "script": si, "i": -1, "ev": "reset", "obs": obs}
+		if a.extra != nil {
+			for k, v := range a.extra() {
+				rec[k] = v
+			}
+		}
+
+		out.put(rec)
+		for i, stp := range sc {
+			st := a.exec(stp.Act, stp.Args)
+			if a.quiesce != nil && len(stp.Want) == 0 {
+				a.quiesce(stp.Act, st)
+			}
+
+			key, obs := a.observe()
+			if a.settle != nil && len(stp.Want) > 0 {
+				want := map[string]bool{}
+				for _, k := range stp.Want {
+					want[k] = true
+				}
+
+				if !want[key] {
+					key, obs = a.settle(want)
+				}
+			}
+
+			fields := st.Fields
+			if fields == nil {
+				fields = map[string]any{}
+			}
+
+			args := stp.Args
+			if args == nil {
+				args = map[string]any{}
+			}
+
+			rec = map[string]any{"kind": "script", "script": si, "i": i, "last": i == len(sc)-1, "ev": "step",
+				"act": stp.Act, "req": args, "args": args, "step": st, "code": st.Code, "web": st.Web, "dns": st.DNS,
+				"fields": fields, "obs": obs, "key": key, "body": st.Body}
+			if a.extra != nil {
+				for k, v := range a.extra() {
+					rec[k] = v
+				}
+			}
+
+			out.put(rec)
+			if st.Code < 0 {
+				break
+			}
+		}
+	}
+}
+
+func zzG08EnvInt(name string, dflt int) (n int) {
+	n = dflt
+	if s := os.Getenv(name); s != "" {
+		_, _ = fmt.Sscanf(s, "%d", &n)
+	}
+
+	return n
+}
+
+func zzG08Str(m map[string]any, k string) (s string) {
+	s, _ = m[k].(string)
+
+	return s
+}
+
+func zzG08Bool(m map[string]any, k string) (b bool) {
+	b, _ = m[k].(bool)
+
+	return b
+}
+
+// ------------------------------------------------------------ arena I
+
+var zzG08Passwords = map[string]string{"": zzG08Pass1, "u1": zzG08Pass1, "u2": zzG08Pass2, "u3": "third password 3"}
+
+type zzG08Install struct {
+	w         *zzG08World
+	fault     bool
+	rng       *rand.Rand
+	credKey   string
+	credProbe [2]string
+}
+
+func zzG08NewInstall(t testing.TB) (ia *zzG08Install) {
+	w := zzG08NewWorld(t, []string{"w0", "w1", "w2", "d1", "d2", "d3", "pb", "pt", "up"})
+
+	return &zzG08Install{w: w, rng: rand.New(rand.NewSource(zzSeed()))}
+}
+
+func (ia *zzG08Install) reset() (err error) {
+	ia.w.newDeployment()
+	ia.fault = false
+	ia.credKey = ""
+
+	return ia.w.boot()
+}
+
+func (ia *zzG08Install) port(name string) (p uint16) {
+	if name == "zero" {
+		return 0
+	}
+
+	p, ok := ia.w.ports[name]
+	if !ok {
+		ia.w.t.Fatalf("unknown port name %q", name)
+	}
+
+	return p
+}
+
+func (ia *zzG08Install) password(user, kind string) (pw string) {
+	switch kind {
+	case "good":
+		return zzG08Passwords[user]
+	case "short":
+		// Seven runes; the second spelling is longer than seven BYTES.
+		return []string{"1234567", "пароль7", "s h o r"}[ia.rng.Intn(3)]
+	default:
+		return ""
+	}
+}
+
+func (ia *zzG08Install) exec(act string, args map[string]any) (st zzG08Step) {
+	w := ia.w
+	switch act {
+	case "get_addresses":
+		r := w.do(http.MethodGet, "/control/install/get_addresses", nil, "", "")
+		st.Code, st.Panic = r.Status, r.Panic
+		if r.Status == http.StatusOK {
+			doc := struct {
+				Interfaces map[string]any `json:"interfaces"`
+				WebPort    int            `json:"web_port"`
+				DNSPort    int            `json:"dns_port"`
+			}{}
+			if err := json.Unmarshal(r.Body, &doc); err != nil || len(doc.Interfaces) == 0 || doc.WebPort == 0 || doc.DNSPort == 0 {
+				st.Code = -3
+				st.Body = string(r.Body)
+			}
+		}
+	case "check_config":
+		var body []byte
+		if zzG08Bool(args, "json") {
+			body, _ = json.Marshal(map[string]any{
+				"web":           map[string]any{"ip": zzG08Host, "port": ia.port(zzG08Str(args, "web")), "autofix": false},
+				"dns":           map[string]any{"ip": zzG08Host, "port": ia.port(zzG08Str(args, "dns")), "autofix": false},
+				"set_static_ip": false,
+			})
+		} else {
+			body = []byte(`{"web":{"ip":"127.0.0.1","port":`)
+		}
+
+		r := w.do(http.MethodPost, "/control/install/check_config", body, "", "")
+		st.Code, st.Panic = r.Status, r.Panic
+		st.Web, st.DNS = "na", "na"
+		if r.Status == http.StatusOK {
+			doc := struct {
+				Web struct {
+					Status string `json:"status"`
+				} `json:"web"`
+				DNS struct {
+					Status string `json:"status"`
+				} `json:"dns"`
+			}{}
+			if err := json.Unmarshal(r.Body, &doc); err != nil {
+				st.Code = -3
+			}
+
+			st.Web, st.DNS = "ok", "ok"
+			if doc.Web.Status != "" {
+				st.Web = "err"
+			}
+
+			if doc.DNS.Status != "" {
+				st.DNS = "err"
+			}
+		}
+	case "configure":
+		var body []byte
+		if zzG08Bool(args, "json") {
+			user := zzG08Str(args, "user")
+			body, _ = json.Marshal(map[string]any{
+				"username": user, "password": ia.password(user, zzG08Str(args, "pw")),
+				"web": map[string]any{"ip": zzG08Host, "port": ia.port(zzG08Str(args, "web"))},
+				"dns": map[string]any{"ip": zzG08Host, "port": ia.port(zzG08Str(args, "dns"))},
+			})
+		} else {
+			body = []byte(`{"username":"u1","password":`)
+		}
+
+		r := w.do(http.MethodPost, "/control/install/configure", body, "", "")
+		st.Code, st.Panic = r.Status, r.Panic
+		if r.Status != http.StatusOK {
+			st.Body = strings.TrimSpace(string(r.Body))
+			if len(st.Body) > 200 {
+				st.Body = st.Body[:200]
+			}
+		}
+	case "restart":
+		if err := w.restart(); err != nil {
+			st.Code = -4
+			st.Body = err.Error()
+		}
+	case "wipe":
+		if err := ia.reset(); err != nil {
+			st.Code = -4
+			st.Body = err.Error()
+		}
+	case "break":
+		w.breakDisk()
+		ia.fault = true
+	case "heal":
+		w.healDisk()
+		ia.fault = false
+	default:
+		w.t.Fatalf("unknown install label %q", act)
+	}
+
+	return st
+}
+
+func zzG08SortedSet(in []string) (out []string) {
+	m := map[string]bool{}
+	for _, s := range in {
+		m[s] = true
+	}
+
+	out = []string{}
+	for s := range m {
+		out = append(out, s)
+	}
+
+	sort.Strings(out)
+
+	return out
+}
+
+func (ia *zzG08Install) observe() (key string, obs map[string]any) {
+	w := ia.w
+	if !w.up {
+		obs = map[string]any{"boot": "failed", "error": w.bootErr}
+
+		return zzG08Canon(obs), obs
+	}
+
+	var names []string
+	credKey := fmt.Sprintf("%v|", globalContext.firstRun)
+	if globalContext.auth != nil {
+		for _, u := range globalContext.auth.usersList() {
+			names = append(names, u.Name)
+			credKey += u.Name + ":" + u.PasswordHash + "|"
+		}
+	}
+
+	file := map[string]any{"exists": false, "users": []string{}, "web": "none", "dns": "none"}
+	if !ia.fault {
+		f, ok, err := w.readFile()
+		switch {
+		case ok && err != nil:
+			file = map[string]any{"exists": true, "users": []string{"?unparsable"}, "web": "?", "dns": "?"}
+		case ok:
+			var fu []string
+			for _, u := range f.Users {
+				fu = append(fu, u.Name)
+			}
+
+			web := "?" + f.HTTP.Address
+			if ap, perr := netip.ParseAddrPort(f.HTTP.Address); perr == nil && ap.Addr().String() == zzG08Host {
+				web = w.portName(ap.Port())
+			}
+
+			dns := w.portName(f.DNS.Port)
+			if len(f.DNS.BindHosts) != 1 || f.DNS.BindHosts[0] != zzG08Host {
+				dns = fmt.Sprintf("?%v:%d", f.DNS.BindHosts, f.DNS.Port)
+			}
+
+			file = map[string]any{"exists": true, "users": zzG08SortedSet(fu), "web": web, "dns": dns}
+		}
+	}
+
+	web := w.portName(config.HTTPConfig.Address.Port())
+	dns := "dflt"
+	if config.DNS.Port != defaultPortDNS {
+		dns = w.portName(config.DNS.Port)
+	}
+
+	// The web server can take the address in force: it holds it already, or
+	// it can be bound now.
+	bindable := true
+	if web != "w0" {
+		l, err := net.Listen("tcp", config.HTTPConfig.Address.String())
+		if err != nil {
+			bindable = false
+		} else {
+			_ = l.Close()
+		}
+	}
+
+	wizard := "closed"
+	switch r := w.do(http.MethodGet, "/control/install/get_addresses", nil, "", ""); r.Status {
+	case http.StatusOK:
+		wizard = "open"
+	case http.StatusForbidden:
+	default:
+		wizard = fmt.Sprintf("other%d", r.Status)
+	}
+
+	probeNone := zzG08ProbeClass(w.do(http.MethodGet, "/control/status", nil, "", ""))
+	// The credential probes cost a bcrypt comparison each: they are repeated
+	// whenever first-run mode, the account table (names and hashes) or the
+	// anonymous probe changed, and reused otherwise.
+	credKey += probeNone + "|" + wizard
+	if credKey != ia.credKey {
+		ia.credProbe[0] = zzG08ProbeClass(w.do(http.MethodGet, "/control/status", nil, "u1", zzG08Pass1))
+		ia.credProbe[1] = zzG08ProbeClass(w.do(http.MethodGet, "/control/status", nil, "u2", zzG08Pass2))
+		ia.credKey = credKey
+	}
+
+	obs = map[string]any{
+		"firstRun": globalContext.firstRun, "accounts": zzG08SortedSet(names), "file": file,
+		"web": web, "dns": dns, "dnsUp": isRunning(),
+		"probeNone": probeNone, "probeU1": ia.credProbe[0], "probeU2": ia.credProbe[1],
+		"wizard": wizard, "webBindable": bindable,
+	}
+
+	return fmt.Sprintf("%s|%v", zzG08Canon(obs), ia.fault), obs
+}
+
+func (ia *zzG08Install) arena() (a *zzG08Arena) {
+	return &zzG08Arena{name: "install", reset: ia.reset, exec: ia.exec, observe: ia.observe,
+		extra: func() map[string]any { return map[string]any{"fault": ia.fault} }}
+}
+
+// trace is direction B for arena I: a seeded random history over a larger
+// universe (a third account, more ports), one NDJSON line per step.
+func (ia *zzG08Install) trace(out *zzWriter, n int) {
+	rng := ia.rng
+	users := []string{"u1", "u2", "u3", "u1", "u2", ""}
+	pws := []string{"good", "good", "good", "good", "short", "empty"}
+	webs := []string{"w0", "w0", "w1", "w2", "w1", "pb", "zero"}
+	dnss := []string{"d1", "d2", "d3", "d1", "d2", "w0", "w1", "w2", "pb", "pt", "zero"}
+	pick := func(l []string) string { return l[rng.Intn(len(l))] }
+
+	restart := func() {
+		if err := ia.reset(); err != nil {
+			ia.w.t.Fatalf("reset: %v", err)
+		}
+
+		_, obs := ia.observe()
+		out.put(map[string]any{"ev": "reset", "obs": obs, "fault": ia.fault})
+	}
+
+	restart()
+	sinceReset := 0
+	for i := 0; i < n; i++ {
+		sinceReset++
+		var act string
+		args := map[string]any{}
+		x := rng.Intn(100)
+		if !globalContext.firstRun {
+			// An installed system answers the wizard's calls 403: do not
+			// stay long.
+			switch {
+			case x < 30:
+				x = 88 // wipe
+			case x < 50:
+				x = 80 // restart
+			}
+		}
+
+		switch {
+		case x < 8:
+			act = "get_addresses"
+		case x < 30:
+			act = "check_config"
+			args = map[string]any{"json": rng.Intn(20) != 0, "web": pick(webs), "dns": pick(dnss)}
+		case x < 78:
+			act = "configure"
+			args = map[string]any{"json": rng.Intn(25) != 0, "user": pick(users), "pw": pick(pws), "web": pick(webs), "dns": pick(dnss)}
+		case x < 86:
+			act = "restart"
+			if ia.fault {
+				act = "heal"
+			}
+		case x < 92:
+			act = "wipe"
+		default:
+			act = "break"
+			if ia.fault {
+				act = "heal"
+			} else if !globalContext.firstRun {
+				act = "get_addresses"
+			}
+		}
+
+		st := ia.exec(act, args)
+		_, obs := ia.observe()
+		out.put(map[string]any{"ev": "step", "act": act, "req": args, "code": st.Code, "web": st.Web, "dns": st.DNS,
+			"obs": obs, "fault": ia.fault, "body": st.Body})
+		// A server error or a failed boot ends the behaviour (the rest of it
+		// would only repeat the same divergence); so does a long stay.
+		if st.Code >= 500 || st.Code < 0 || sinceReset > 40 {
+			restart()
+			sinceReset = 0
+		}
+	}
+}
+
+func TestZZVerifG08Install(t *testing.T) {
+	out := zzNewWriter(t, "VERIF_OUT")
+	defer out.close()
+
+	ia := zzG08NewInstall(t)
+	if p := os.Getenv("VERIF_G08_TRACE"); p != "" {
+		tw := zzG08WriterOn(t, p)
+		ia.trace(tw, zzG08EnvInt("VERIF_G08_TRACE_N", 300))
+		tw.close()
+		out.put(map[string]any{"kind": "trace", "arena": "install"})
+	}
+
+	if p := os.Getenv("VERIF_G08_SCRIPTS"); p != "" {
+		zzG08RunScripts(t, ia.arena(), out, p)
+
+		return
+	}
+
+	if os.Getenv("VERIF_IN") == "" {
+		return
+	}
+
+	vecs, initID, initKey := zzG08LoadVecs(t)
+	zzG08Walk(t, ia.arena(), out, vecs, initID, initKey, rand.New(rand.NewSource(zzSeed())))
+}
+
+func zzG08WriterOn(t testing.TB, p string) (w *zzWriter) {
+	fh, err := os.Create(p)
+	if err != nil {
+		t.Fatalf("creating %s: %v", p, err)
+	}
+
+	return &zzWriter{fh: fh, w: bufio.NewWriterSize(fh, 1<<20)}
+}
+
+// ------------------------------------------------------------ arena T
+
+type zzG08TLS struct {
+	w      *zzG08World
+	rng    *rand.Rand
+	waitMS int
+}
+
+func zzG08NewTLS(t testing.TB) (ta *zzG08TLS) {
+	w := zzG08NewWorld(t, []string{"w0", "d1", "p1", "p2", "p3", "pb", "up"})
+	w.makeCerts()
+
+	return &zzG08TLS{w: w, rng: rand.New(rand.NewSource(zzSeed())), waitMS: zzG08EnvInt("VERIF_G08_WAIT_MS", 400)}
+}
+
+// reset deploys a configured installation: one administrator, the web
+// interface on w0, plain DNS on d1, encryption off and without ports.
+func (ta *zzG08TLS) reset() (err error) {
+	w := ta.w
+	w.newDeployment()
+	h, err := bcrypt.GenerateFromPassword([]byte(zzG08TPass), bcrypt.MinCost)
+	if err != nil {
+		return err
+	}
+
+	y := fmt.Sprintf(`http:
+  address: %s:%d
+users:
+  - name: %s
+    password: %s
+dns:
+  bind_hosts:
+    - %s
+  port: %d
+tls:
+  enabled: false
+  port_https: 0
+  port_dns_over_tls: 0
+  port_dns_over_quic: 0
+schema_version: %d
+`, zzG08Host, w.ports["w0"], zzG08TUser, string(h), zzG08Host, w.ports["d1"], config.SchemaVersion)
+	if err = os.WriteFile(w.confPath(), []byte(y), 0o644); err != nil {
+		return err
+	}
+
+	return w.boot()
+}
+
+func (ta *zzG08TLS) port(name string) (p uint16) {
+	if name == "zero" {
+		return 0
+	}
+
+	p, ok := ta.w.ports[name]
+	if !ok {
+		ta.w.t.Fatalf("unknown port name %q", name)
+	}
+
+	return p
+}
+
+var zzG08Names = map[string]string{"": "", "good": zzG08Name, "other": zzG08Other}
+
+func zzG08NameClass(n string) (c string) {
+	for k, v := range zzG08Names {
+		if v == n {
+			return k
+		}
+	}
+
+	return "?" + n
+}
+
+// body renders an abstract request.
+func (ta *zzG08TLS) body(args map[string]any) (b []byte) {
+	if !zzG08Bool(args, "json") {
+		return []byte(`{"enabled":true,"port_https":`)
+	}
+
+	w := ta.w
+	m := map[string]any{
+		"enabled":     zzG08Bool(args, "enabled"),
+		"server_name": zzG08Names[zzG08Str(args, "name")],
+		"force_https": false,
+	}
+	for f, k := range map[string]string{"port_https": "https", "port_dns_over_tls": "dot", "port_dns_over_quic": "doq"} {
+		m[f] = ta.port(zzG08Str(args, k))
+	}
+
+	cert := zzG08Str(args, "cert")
+	c := w.certs[cert]
+	switch src := zzG08Str(args, "csrc"); src {
+	case "inline", "both":
+		m["certificate_chain"] = c.chainB64
+		if src == "both" {
+			m["certificate_path"] = c.certPath
+		}
+	case "path":
+		if cert == "M" {
+			m["certificate_path"] = filepath.Join(w.certDir, zzG08NoSuch)
+		} else {
+			m["certificate_path"] = c.certPath
+		}
+	case "badb64":
+		m["certificate_chain"] = "!!! this is not base64 !!!"
+	}
+
+	k := w.certs[zzG08Str(args, "key")]
+	switch src := zzG08Str(args, "ksrc"); src {
+	case "inline", "both":
+		m["private_key"] = k.keyB64
+		if src == "both" {
+			m["private_key_path"] = k.keyPath
+		}
+	case "path":
+		m["private_key_path"] = k.keyPath
+	case "badb64":
+		m["private_key"] = "%%% this is not base64 %%%"
+	case "saved":
+		m["private_key_saved"] = true
+	}
+
+	switch zzG08Str(args, "plain") {
+	case "true":
+		m["serve_plain_dns"] = true
+	case "false":
+		m["serve_plain_dns"] = false
+	}
+
+	b, _ = json.Marshal(m)
+
+	return b
+}
+
+// zzG08TLSDoc is the part of a TlsConfig reply the harness looks at.
+type zzG08TLSDoc struct {
+	Enabled    bool   `json:"enabled"`
+	Name       string `json:"server_name"`
+	HTTPS      uint16 `json:"port_https"`
+	DoT        uint16 `json:"port_dns_over_tls"`
+	DoQ        uint16 `json:"port_dns_over_quic"`
+	Chain      string `json:"certificate_chain"`
+	Key        string `json:"private_key"`
+	ChainPath  string `json:"certificate_path"`
+	KeyPath    string `json:"private_key_path"`
+	Saved      bool   `json:"private_key_saved"`
+	Plain      *bool  `json:"serve_plain_dns"`
+	Subject    string `json:"subject"`
+	Warning    string `json:"warning_validation"`
+	ValidCert  bool   `json:"valid_cert"`
+	ValidChain bool   `json:"valid_chain"`
+	ValidKey   bool   `json:"valid_key"`
+	ValidPair  bool   `json:"valid_pair"`
+	KeyType    string `json:"key_type"`
+}
+
+// fields abstracts the status part of a reply.
+func (ta *zzG08TLS) fields(body []byte) (f map[string]any, doc *zzG08TLSDoc) {
+	doc = &zzG08TLSDoc{}
+	if err := json.Unmarshal(body, doc); err != nil {
+		return map[string]any{"unparsable": true}, doc
+	}
+
+	leaf := "none"
+	if doc.Subject != "" {
+		leaf = "?" + doc.Subject
+		if i := strings.Index(doc.Subject, "CN=zz-"); i >= 0 {
+			leaf = strings.SplitN(doc.Subject[i+6:], ",", 2)[0]
+		}
+	}
+
+	// No reply may carry private key material, in the field made for it or
+	// anywhere else.
+	returned := doc.Key != ""
+	for _, c := range ta.w.certs {
+		if c.id == "G" {
+			continue
+		}
+
+		// the whole key as the API encodes it, or the first line of its PEM body
+		lines := strings.Split(string(c.keyPEM), "\n")
+		if bytes.Contains(body, []byte(c.keyB64)) || (len(lines) > 1 && bytes.Contains(body, []byte(lines[1]))) {
+			returned = true
+		}
+	}
+
+	f = map[string]any{
+		"valid_cert": doc.ValidCert, "valid_chain": doc.ValidChain, "valid_key": doc.ValidKey,
+		"valid_pair": doc.ValidPair, "warning": doc.Warning != "", "leaf": leaf,
+		"key_returned": returned, "saved": doc.Saved,
+	}
+
+	return f, doc
+}
+
+func (ta *zzG08TLS) exec(act string, args map[string]any) (st zzG08Step) {
+	w := ta.w
+	switch act {
+	case "status":
+		r := w.do(http.MethodGet, "/control/tls/status", nil, zzG08TUser, zzG08TPass)
+		st.Code, st.Panic = r.Status, r.Panic
+		if r.Status == http.StatusOK {
+			st.Fields, _ = ta.fields(r.Body)
+		}
+	case "validate", "configure":
+		r := w.do(http.MethodPost, "/control/tls/"+act, ta.body(args), zzG08TUser, zzG08TPass)
+		st.Code, st.Panic = r.Status, r.Panic
+		if r.Status == http.StatusOK {
+			st.Fields, _ = ta.fields(r.Body)
+		} else {
+			st.Body = strings.TrimSpace(string(r.Body))
+			if len(st.Body) > 200 {
+				st.Body = st.Body[:200]
+			}
+		}
+	case "restart":
+		if err := w.restart(); err != nil {
+			st.Code = -4
+			st.Body = err.Error()
+		}
+	default:
+		w.t.Fatalf("unknown tls label %q", act)
+	}
+
+	return st
+}
+
+func (ta *zzG08TLS) settings(enabled bool, name string, https, dot, doq uint16, chain, chainPath string, keyInline bool, keyPEM, keyPath string, plain bool) (m map[string]any) {
+	w := ta.w
+	csrc, cert := "none", "none"
+	switch {
+	case chain != "" && chainPath != "":
+		csrc, cert = "both", w.certID([]byte(chain))
+	case chain != "":
+		csrc, cert = "inline", w.certID([]byte(chain))
+	case chainPath != "":
+		csrc, cert = "path", w.pathID(chainPath)
+	}
+
+	ksrc, key := "none", "none"
+	switch {
+	case keyInline && keyPath != "":
+		ksrc, key = "both", w.keyID([]byte(keyPEM))
+	case keyInline:
+		ksrc, key = "inline", w.keyID([]byte(keyPEM))
+	case keyPath != "":
+		ksrc, key = "path", w.pathID(keyPath)
+	}
+
+	return map[string]any{
+		"enabled": enabled, "name": zzG08NameClass(name),
+		"https": w.portName(https), "dot": w.portName(dot), "doq": w.portName(doq),
+		"csrc": csrc, "cert": cert, "ksrc": ksrc, "key": key, "plain": plain,
+	}
+}
+
+func (ta *zzG08TLS) observe() (key string, obs map[string]any) {
+	w := ta.w
+	if !w.up {
+		obs = map[string]any{"boot": "failed", "error": w.bootErr}
+
+		return zzG08Canon(obs), obs
+	}
+
+	// In force: the public view (GET /control/tls/status); the id of a saved
+	// key, which no reply shows, is read from the manager.
+	var cur map[string]any
+	r := w.do(http.MethodGet, "/control/tls/status", nil, zzG08TUser, zzG08TPass)
+	if r.Status != http.StatusOK {
+		cur = map[string]any{"status": r.Status}
+	} else {
+		_, doc := ta.fields(r.Body)
+		chain := ""
+		if doc.Chain != "" {
+			b, err := base64.StdEncoding.DecodeString(doc.Chain)
+			if err != nil {
+				b = []byte("undecodable")
+			}
+
+			chain = string(b)
+		}
+
+		mem := globalContext.tls.config()
+		plain := doc.Plain != nil && *doc.Plain
+		cur = ta.settings(doc.Enabled, doc.Name, doc.HTTPS, doc.DoT, doc.DoQ, chain, doc.ChainPath,
+			doc.Saved, mem.PrivateKey, doc.KeyPath, plain)
+		if doc.Saved != (mem.PrivateKey != "") {
+			cur["saved_flag_disagrees_with_manager"] = true
+		}
+	}
+
+	disk := map[string]any{"exists": false}
+	if f, ok, err := w.readFile(); ok && err == nil {
+		disk = ta.settings(f.TLS.Enabled, f.TLS.Name, f.TLS.HTTPS, f.TLS.DoT, f.TLS.DoQ, f.TLS.Chain, f.TLS.ChainPath,
+			f.TLS.Key != "", f.TLS.Key, f.TLS.KeyPath, f.DNS.ServePlainDNS)
+		if len(f.Users) != 1 || f.Users[0].Name != zzG08TUser {
+			disk["users_changed"] = true
+		}
+	}
+
+	obs = map[string]any{"cur": cur, "disk": disk, "serving": ta.serving(), "running": isRunning()}
+
+	return zzG08Canon(obs), obs
+}
+
+// serving reads what the HTTPS server would serve (web.start is not run:
+// tlsConfigChanged only records it).
+func (ta *zzG08TLS) serving() (m map[string]any) {
+	web := globalContext.web
+	web.httpsServer.condLock.Lock()
+	defer web.httpsServer.condLock.Unlock()
+
+	cert := "none"
+	if c := web.httpsServer.cert.Certificate; len(c) > 0 {
+		cert = ta.w.certID(zzG08PEM("CERTIFICATE", c[0]))
+	}
+
+	if !web.httpsServer.enabled {
+		// A certificate that is not served is not an observable.
+		cert = "none"
+	}
+
+	return map[string]any{"on": web.httpsServer.enabled, "cert": cert}
+}
+
+// settle waits for the HTTPS server to pick up what configure applied
+// (handleTLSConfigure does that in a goroutine after it has answered).
+func (ta *zzG08TLS) settle(want map[string]bool) (key string, obs map[string]any) {
+	key, obs = ta.observe()
+	// Only the serving part arrives late: when nothing admissible agrees with
+	// the rest of the projection there is nothing to wait for.
+	rest := func(k string) string {
+		m := map[string]any{}
+		_ = json.Unmarshal([]byte(k), &m)
+		delete(m, "serving")
+
+		return zzG08Canon(m)
+	}
+
+	mine := rest(key)
+	possible := false
+	for k := range want {
+		if rest(k) == mine {
+			possible = true
+		}
+	}
+
+	if !possible {
+		return key, obs
+	}
+
+	deadline := time.Now().Add(time.Duration(ta.waitMS) * time.Millisecond)
+	for !want[key] && time.Now().Before(deadline) {
+		time.Sleep(2 * time.Millisecond)
+		key, obs = ta.observe()
+	}
+
+	return key, obs
+}
+
+// quiesce is the specification-free wait used where no admissible projections
+// are at hand (direction B): after a configure that was answered 200 it waits
+// until the HTTPS server has what the settings in force say (the same
+// certificate, or nothing), or the budget is used up.
+func (ta *zzG08TLS) quiesce(act string, st zzG08Step) {
+	if act != "configure" || st.Code != http.StatusOK || !ta.w.up {
+		return
+	}
+
+	deadline := time.Now().Add(time.Duration(ta.waitMS) * time.Millisecond)
+	for {
+		_, obs := ta.observe()
+		cur, _ := obs["cur"].(map[string]any)
+		sv, _ := obs["serving"].(map[string]any)
+		if cur == nil || sv == nil {
+			return
+		}
+
+		on := zzG08Bool(cur, "enabled") && cur["https"] != "zero" && cur["cert"] != "none" && cur["key"] != "none"
+		if sv["on"] == on && (!on || sv["cert"] == cur["cert"]) {
+			return
+		}
+
+		if !time.Now().Before(deadline) {
+			return
+		}
+
+		time.Sleep(2 * time.Millisecond)
+	}
+}
+
+func (ta *zzG08TLS) arena() (a *zzG08Arena) {
+	return &zzG08Arena{name: "tls", reset: ta.reset, exec: ta.exec, observe: ta.observe, settle: ta.settle, quiesce: ta.quiesce}
+}
+
+// trace is direction B for arena T: a seeded random history; requests are
+// drawn from the full product of the request dimensions (biased towards
+// requests that differ from a good one in a few places).
+func (ta *zzG08TLS) trace(out *zzWriter, n int) {
+	rng := ta.rng
+	pick := func(l ...string) string { return l[rng.Intn(len(l))] }
+	restart := func() {
+		if err := ta.reset(); err != nil {
+			ta.w.t.Fatalf("reset: %v", err)
+		}
+
+		_, obs := ta.observe()
+		out.put(map[string]any{"ev": "reset", "obs": obs})
+	}
+
+	restart()
+	since := 0
+	for i := 0; i < n; i++ {
+		since++
+		act := "configure"
+		switch x := rng.Intn(100); {
+		case x < 8:
+			act = "status"
+		case x < 16:
+			act = "restart"
+		case x < 40:
+			act = "validate"
+		}
+
+		args := map[string]any{}
+		if act == "validate" || act == "configure" {
+			id := pick("A", "A", "C", "B", "X", "Y", "N")
+			args = map[string]any{"json": true, "enabled": true, "name": "good", "https": "p1", "dot": "zero", "doq": "zero",
+				"csrc": "inline", "cert": id, "ksrc": "inline", "key": id, "plain": "null"}
+			for k := rng.Intn(4); k > 0; k-- {
+				switch rng.Intn(12) {
+				case 0:
+					args["enabled"] = false
+				case 1:
+					args["name"] = pick("", "good", "other")
+				case 2:
+					args["https"] = pick("zero", "p1", "p2", "p3", "w0", "d1", "pb")
+				case 3:
+					args["dot"] = pick("zero", "p2", "p3", "p1", "d1", "pb")
+				case 4:
+					args["doq"] = pick("zero", "p3", "p2", "d1", "pb")
+				case 5:
+					args["csrc"] = pick("none", "inline", "path", "both", "badb64")
+				case 6:
+					args["cert"] = pick("A", "C", "B", "X", "Y", "N", "G")
+				case 7:
+					args["ksrc"] = pick("none", "inline", "path", "both", "badb64", "saved", "saved")
+				case 8:
+					args["key"] = pick("A", "C", "B", "X", "N", "G")
+				case 9:
+					args["plain"] = pick("null", "true", "false")
+				case 10:
+					args["json"] = rng.Intn(4) != 0
+				case 11:
+					args["csrc"], args["ksrc"] = "path", "path"
+				}
+			}
+
+			// Normal forms the specification's vocabulary expects.
+			if args["csrc"] == "none" {
+				args["cert"] = "none"
+			}
+
+			if args["csrc"] == "path" && args["cert"] == "G" && rng.Intn(2) == 0 {
+				args["cert"] = "M"
+			}
+
+			if k := args["ksrc"]; k == "none" || k == "saved" {
+				args["key"] = "none"
+			}
+
+			if args["csrc"] == "badb64" {
+				args["cert"] = "G"
+			}
+
+			if args["ksrc"] == "badb64" {
+				args["key"] = "G"
+			}
+
+			// Plain DNS off together with enabled settings that have no DoT /
+			// DoQ port is left out (the documentation does not say what it
+			// means for the HTTPS-only case).
+			if args["plain"] == "false" && zzG08Bool(args, "enabled") && args["dot"] == "zero" && args["doq"] == "zero" {
+				args["dot"] = "p2"
+				if args["https"] == "p2" {
+					args["https"] = "p1"
+				}
+			}
+		}
+
+		st := ta.exec(act, args)
+		ta.quiesce(act, st)
+		_, obs := ta.observe()
+		fields := st.Fields
+		if fields == nil {
+			fields = map[string]any{}
+		}
+
+		out.put(map[string]any{"ev": "step", "act": act, "req": args, "code": st.Code, "fields": fields, "obs": obs, "body": st.Body})
+		if st.Code >= 500 || st.Code < 0 || since > 60 {
+			restart()
+			since = 0
+		}
+	}
+}
+
+func TestZZVerifG08TLS(t *testing.T) {
+	out := zzNewWriter(t, "VERIF_OUT")
+	defer out.close()
+
+	ta := zzG08NewTLS(t)
+	if p := os.Getenv("VERIF_G08_TRACE"); p != "" {
+		tw := zzG08WriterOn(t, p)
+		ta.trace(tw, zzG08EnvInt("VERIF_G08_TRACE_N", 300))
+		tw.close()
+		out.put(map[string]any{"kind": "trace", "arena": "tls"})
+	}
+
+	if p := os.Getenv("VERIF_G08_SCRIPTS"); p != "" {
+		zzG08RunScripts(t, ta.arena(), out, p)
+
+		return
+	}
+
+	if os.Getenv("VERIF_IN") == "" {
+		return
+	}
+
+	vecs, initID, initKey := zzG08LoadVecs(t)
+	zzG08Walk(t, ta.arena(), out, vecs, initID, initKey, rand.New(rand.NewSource(zzSeed())))
+}
+
+var _ = tls.X509KeyPair
